@@ -17,7 +17,7 @@ META = {
     "outside_bounds": [
         "Base64 inputs longer than the listed shapes (encode > 7 bytes, decode > 8 symbols)",
         "non-canonical final groups (non-zero discarded bits): either outcome accepted, RFC 4648 §3.5",
-        "percent-encoding: not encodable (format!-based), see DESIGN §5 C18",
+        "SHA-1 messages longer than 130 bytes (thorough: 1100) for the padding piece; the per-round/per-step pieces hold for arbitrary states", "percent-encoding: not encodable (format!-based), see DESIGN §5 C18",
     ],
 }
 
@@ -109,12 +109,61 @@ def run(tier, run_k):
         "violations": [r["replay"] for r in d["violations"]],
         "outside": "DateTime::to_string (format!-based IMF-fixdate layout, DAYS/MONTHS name tables), timestamps outside 1970..9999",
     }
+    # ---- SHA-1 (engine M, bit-vector mode, cut points at the loop heads)
+    from . import c18_sha
+    try:
+        mir_ws, dt2 = dump_mir("humphrey-ws", work, features="verif")
+        sh = c18_sha.run_part(tier, work, mir_ws)
+    except Exception as e:
+        log("UNDISCHARGED: SHA-1 — %s" % str(e)[:500])
+        sh = {"results": [], "violations": [], "machinery": [], "undischarged": [{"job": ["all"], "why": str(e)[:300]}], "validation": {}}
+    for v in sh["violations"][:1]:
+        path = os.path.join(REPLAY_DIR, "C18-sha1.json")
+        os.makedirs(REPLAY_DIR, exist_ok=True)
+        with open(path, "w") as f:
+            json.dump({"property": ID, "engine": "M", "kind": "sha1", "message_hex": v["message_hex"], "native": v["native"], "expected": v["expected"],
+                       "failed_pieces": v["failed_pieces"], "how": "./check C18 --replay " + path}, f, indent=1)
+        log("VIOLATION property=%s replay=%s" % (ID, path))
+        log("   SHA-1 of message %s... is %s natively, RFC 3174 gives %s (failed pieces: %s)" % (v["message_hex"][:40], v["native"], v["expected"], str(v["failed_pieces"])[:300]))
+        rc = 1
+        nviol += 1
+    for m in sh["machinery"]:
+        log("MACHINERY-ERROR: SHA-1 — " + m)
+        rc = rc or 2
+    for r in sh["undischarged"][:5]:
+        log("UNDISCHARGED: SHA-1 piece %s — %s" % (r.get("job"), r.get("why", r.get("verdict"))))
+    oks = [r for r in sh["results"] if r["verdict"] == "unsat"]
+    kinds = {}
+    for r in sh["results"]:
+        kinds.setdefault(r["job"][0], [0, 0])
+        kinds[r["job"][0]][0] += 1
+        kinds[r["job"][0]][1] += (r["verdict"] == "unsat")
+    log("   SHA-1: %d/%d cut-point pieces discharged (%s), translator validation on %s messages" % (
+        len(oks), len(sh["results"]), ", ".join("%s %d/%d" % (k, v[1], v[0]) for k, v in sorted(kinds.items())), sh["validation"].get("inputs")))
+    cov["evaluations"] += len(sh["results"])
+    cov["distinct_nontrivial"] += len(oks)
+    cov["obligations"] += len(sh["results"])
+    cov["discharged"] += len(oks)
+    cov["states"] = cov.get("states", 0) + sum(r.get("blocks", 0) for r in sh["results"])
+    cov["transitions"] = cov.get("transitions", 0) + sum(r.get("solver_queries", 0) + 1 for r in sh["results"])
+    cov["traces_validated_against_impl"] = cov.get("traces_validated_against_impl", 0) + (sh["validation"].get("inputs") or 0)
+    cov["sha1"] = {
+        "function_encoded": "humphrey-ws/src/util/sha1.rs: <T as SHA1Hash>::hash and its flat_map closure (MIR of the current working tree, bit-vector mode)",
+        "pieces": {k: "%d/%d" % (v[1], v[0]) for k, v in sorted(kinds.items())},
+        "decomposition": "P[L] padding+IV for every message length L in the bound (symbolic contents); LD block loading; E[t] one schedule step from arbitrary W (t=16..79); EX; R[t] one round from an arbitrary state (t=0..79); RX hash update; F big-endian output. Cut points = the five loop heads of the current MIR. By induction: RFC 3174 method 1.",
+        "message_lengths": "0..%d bytes" % (1100 if tier == "thorough" else 130),
+        "std_models_trusted": sorted(set(m for r in sh["results"] for m in r.get("models", []))),
+        "translator_validation": sh["validation"],
+        "violations": sh["violations"],
+        "undischarged": [{"job": r.get("job"), "why": r.get("why")} for r in sh["undischarged"]],
+    }
+    cov["functions_encoded"] = list(cov.get("functions_encoded", [])) + [cov["sha1"]["function_encoded"]]
     cov["solver_time_s"] = round(cov.get("solver_time_s", 0) + sum(r.get("solver_s", 0) for r in d["results"]), 2)
     cov["functions_encoded"] = list(cov.get("functions_encoded", [])) + [cov["dates"]["function_encoded"]]
     cov["engines"]["mirsym"] = "own MIR symbolic executor (/verif/mirsym) + z3 5.1.0"
     assumptions = assumptions + ["dates: Hinnant's days_from_civil is the calendar specification; z3's integer arithmetic is sound; MIR text printed by rustc nightly reflects the compiled function"]
     write_evidence(ID, tier, cov, assumptions, time.time() - t0, nviol)
-    log("== %s: %d/%d obligations discharged (Base64 K + dates M), %d violation(s); %.0fs wall" % (ID, cov["discharged"], cov["obligations"], nviol, time.time() - t0))
+    log("== %s: %d/%d obligations discharged (Base64 K + dates M + SHA-1 M), %d violation(s); %.0fs wall" % (ID, cov["discharged"], cov["obligations"], nviol, time.time() - t0))
     return rc
 
 
@@ -125,6 +174,15 @@ def replay(d, path):
     mengine.setup(ID)
     kengine.write_lists({})
     exe = mengine.build_mtool("debug")
+    if d.get("kind") == "sha1":
+        import hashlib
+        got = mengine.native_eval(exe, ["sha1 %s" % (d["message_hex"] or "-")])[0]
+        want = hashlib.sha1(bytes.fromhex(d["message_hex"])).hexdigest()
+        log("sha1(%s) = %s, RFC 3174: %s" % (d["message_hex"][:60], got, want))
+        if got != want:
+            log("VIOLATION property=%s replay=%s" % (ID, path))
+            return 1
+        return 0
     got = mengine.native_eval(exe, ["date %d" % d["ts"]])[0]
     want = c18_date.py_ref(d["ts"])
     log("DateTime::from(%d) = [%s], calendar [%s]" % (d["ts"], got, want))
